@@ -151,7 +151,8 @@ def count_points(name):
 
 
 def crash_case(item):
-    name, p, mode = item
+    name, p, mode = item[:3]
+    p2, mode2 = (item[3], item[4]) if len(item) > 3 else (None, None)      # the recovery run is killed too, at its p2-th call
     prog = PROGRAMS[name]
     pj = scen.Project(prog['files'], 'c10')
     anoms = []
@@ -218,6 +219,19 @@ def crash_case(item):
                     anoms.append(dict(key='%s-succeeds-despite-failing-script:%s' % (tag, where), what='exit 0'))
             return 'ok'
 
+        if p2:
+            r2, _ = pj.run(['redo-ifchange'] + prog['tops'], extra=dict(LD_PRELOAD=ensure_shim(), CRASH_CTR=ctr, CRASH_LOG=log, CRASH_AT=str(p2), CRASH_MODE=mode2,
+                                                                         CRASH_ROOT=pj.top), verif_log=False, timeout=40)
+            lines2 = (common.read_file(log) or b'').decode().split('\n')[:-1]
+            for f_ in (log, ctr):
+                if os.path.exists(f_):
+                    os.unlink(f_)
+            hit2 = [l for l in lines2 if l.split(' ')[0] == str(p2)]
+            obs['recovery_runs_killed_too'] = 1 if hit2 else 0
+            if hit2:
+                g = hit2[0].split(' ')
+                where += ':then-recovery-killed-at=%s:%s:%s' % (g[2], g[3], path_class(g[4], pj.top))
+                sets['second_crash_point_classes'] = ['%s:%s:%s' % (g[2], g[3], path_class(g[4], pj.top))]
         fail_mode = prog.get('expect_fail_until_fixed')
         v = judge('recovery', expect_ok=not fail_mode)
         if v == 'inconclusive':
@@ -253,7 +267,7 @@ def crash_case(item):
             anoms.append(dict(key='tmp-left-after-recovery:%s' % where, what=str(left)))
     finally:
         pj.close()
-    res = dict(verdict='violated' if anoms else 'held', nontrivial=True, shape=common.shash([name, mode, point, p]),
+    res = dict(verdict='violated' if anoms else 'held', nontrivial=True, shape=common.shash([name, mode, point, p, p2, mode2]),
                sample=dict(program=name, point=p, mode=mode, at=point), obs=obs, sets=sets)
     if anoms:
         res['violations'] = anoms
@@ -327,7 +341,7 @@ RULE = ('for each of 12 small programs (first builds and rebuilds of a chain, wi
         'immediately before call number p; every p (quick: every third, fewer programs) x both modes, each from a fresh replayed pre-history. '
         'Recovery protocol: redo-ifchange (no clean-up) must finish, not be stuck, not panic, exit 0, leave every target equal to the oracle, '
         'not call an untouched file hand-edited; then every source is edited and the same is required again; integrity_check; no *.redo.tmp. '
-        'Plus random-time whole-tree kills. Non-trivial: the kill really happened. Distinct: (program, mode, point number).')
+        'Double kills: the recovery run itself is killed before a random call of its own (40 quick / 1500 thorough combinations), then a second recovery is judged the same way. Plus random-time whole-tree kills. Non-trivial: the kill really happened. Distinct: (program, mode, point number).')
 ASSUME = ['crash points are libc-call aligned (cross-checked by random-time kills)', 'only the recovery runs are judged, never the crashed run',
           'remnants of a crashed run (mode self) are waited for, and killed if they do not end, before recovery starts']
 
@@ -351,6 +365,10 @@ def main(tier):
                 if quick and (p + (0 if mode == 'self' else 1)) % 2:
                     continue
                 items.append((n, p, mode))
+    # the recovery run is killed as well (at a random call of its own), then a second recovery is judged
+    for i in range(40 if quick else 1500):
+        n = rnd.choice(names)
+        items.append((n, rnd.randint(1, max(2, counts[n])), rnd.choice(['self', 'group']), rnd.randint(1, 70), rnd.choice(['self', 'group'])))
     rnd.shuffle(items)
     if not quick:
         items += [('random', rnd.choice(list(PROGRAMS)), rnd.randint(1, 400), i) for i in range(300)]
